@@ -62,7 +62,9 @@ CLAIMED["C19"] = (
     "Proof (all terms, inputs, rule tables, fuels): run <=> Ev on tag-free grammars (run_sound, run_complete, ev_deterministic, run_fuel_independent), state untouched by backtracking (backtrack_clean), positions never decrease, "
     "look-ahead / choice / repetition / option laws, sep_by keeps any first value (the repaired defect). Proved FALSE with witnesses (known findings): backtrack-cleanliness with tags, function-error surfacing, no leading separator. "
     "Tied: five observables (position, value, failure, function-error flag, tag stack) on ~70k generated (grammar, input) cases per quick run built from the real classes and operators. "
-    "Partial: the shipped JSON and tag-expression grammars are covered by oracle streams (json.loads on the documented subset, boolean evaluation), not translated into model terms; termination (fuel suffices for grammars whose repetitions consume) is assumed, not proved.",
+    "no_divergence: for well-formed grammars (repetition bodies consume, references are guarded — a decidable check) a fuel computed from term, rule table and remaining input suffices, so `diverge` is never the reason for an answer (run_decides). "
+    "The SHIPPED JSON and tag-expression grammars are translated from their live object graphs into model terms on every run (translate/grammars.py -> IV/Gen/Grammars.lean), proved well-formed and tag-free by decide, hence decided by the interpreter on every input, with kernel-checked samples pinning values, precedence and the repaired cases; "
+    "they run three-way (real grammar, translated grammar in the model, json.loads / boolean evaluation). Partial: taglang_roundtrip (evaluation of every rendered expression) is not a theorem — carried by the taglang streams; float() and re inside mapped functions are not modelled.",
     "Trusted: Lean kernel + propext/Classical.choice/Quot.sound; the object-graph walker, generators and canonicalisers in harness/c19.py; the mapped-function table (Fn.apply mirrors the Python lambdas); ASCII lower(); json.loads and the hand-written boolean evaluator as references.",
     "DESIGN.md §6 C19")
 
